@@ -18,7 +18,7 @@ func init() {
 		ID:    "C17",
 		Title: "Dialect options rewrite only syntax and preserve query meaning",
 		Level: "exploration",
-		Rule: "double-quoted identifiers ending in a backslash. the same text evaluated without the options just before (bare FROM table); WITH scopes inside derived tables and CTE bodies under Wrapped; identifiers ending in a backslash; array literals glued to a keyword. a quarter of the cases first evaluate a query text the option rewrite or the parser rejects. each case = a query AST (filter from the C01 grammar + select list of string literals and aliases over an alphabet of \" ' ` \\ [ ] letters and space, array literals nested 0..4 deep incl. empty arrays and arrays next to literals containing brackets, back-tick selector paths with [i], plain columns) " +
+		Rule: "wrapped over a document whose one top-level key is root. double-quoted identifiers ending in a backslash. the same text evaluated without the options just before (bare FROM table); WITH scopes inside derived tables and CTE bodies under Wrapped; identifiers ending in a backslash; array literals glued to a keyword. a quarter of the cases first evaluate a query text the option rewrite or the parser rejects. each case = a query AST (filter from the C01 grammar + select list of string literals and aliases over an alphabet of \" ' ` \\ [ ] letters and space, array literals nested 0..4 deep incl. empty arrays and arrays next to literals containing brackets, back-tick selector paths with [i], plain columns) " +
 			"x one of the 2^3 option sets (forced round-robin). The query is rendered in the spelling the option set calls for (double-quoted identifiers under PostgresEscapingDialect, [..] under IdiomaticArrays, raw document under Wrapped - or, for a share of the cases, the neutral spelling, which the option must leave alone) and executed; " +
 			"it must return exactly what the canonical spelling (back-ticks, ARRAY(..), document passed as {\"root\": d}) returns without options, and the canonical result itself must echo every literal / alias / array / path value untouched. " +
 			"Non-trivial = an option set with at least one option and a select list containing a hostile literal, alias or nested array; distinct = distinct (document, SQL, options).",
